@@ -137,7 +137,6 @@ theorem SKProvider.local?_setLocal (p : SKProvider) (nm n : String) (l : SKLocal
 structure PInv (p : SKProvider) (qv : Nat → List String → Bool) : Prop where
   qv : p.queryVariable = qv
   qf : p.queryFunction = asmBuiltinKnown
-  noAsm : ∀ n, asmBuiltinKnown n = true → p.local? n = none
 
 theorem matchQv_asm (d : Decls) (defs : Defs) (symCtx : List String) (n : String) (h : asmBuiltinKnown n = true) :
     matchQv d defs symCtx 0 [n] = false := by
@@ -148,39 +147,31 @@ theorem PInv.providerOK {p : SKProvider} {d : Decls} {defs : Defs} {symCtx : Lis
     ProviderOK p := by
   intro n hn
   rw [h.qf] at hn
-  exact ⟨h.noAsm n hn, by rw [h.qv]; exact matchQv_asm d defs symCtx n hn⟩
+  rw [h.qv]; exact matchQv_asm d defs symCtx n hn
 
-theorem PInv.setLocal {p : SKProvider} {qv : Nat → List String → Bool} (h : PInv p qv) (nm : String) (l : SKLocal)
-    (hnm : isAsmBuiltinName nm = false) : PInv (p.setLocal nm l) qv := by
-  refine ⟨h.qv, h.qf, fun n hn => ?_⟩
-  rw [SKProvider.local?_setLocal]
-  have hne : nm ≠ n := by
-    intro e; subst e
-    have : isAsmBuiltinName nm = true := hn
-    rw [hnm] at this; cases this
-  simp only [hne, if_false]
-  exact h.noAsm n hn
+theorem PInv.setLocal {p : SKProvider} {qv : Nat → List String → Bool} (h : PInv p qv) (nm : String) (l : SKLocal) :
+    PInv (p.setLocal nm l) qv := ⟨h.qv, h.qf⟩
 
 theorem matchP0_pinv (d : Decls) (defs : Defs) (symCtx : List String) : PInv (matchP0 d defs symCtx) (matchQv d defs symCtx) :=
-  ⟨rfl, rfl, fun _ _ => rfl⟩
+  ⟨rfl, rfl⟩
 
 theorem ECtx.locals_setSubst (c : ECtx) (n : String) (x : List Char) : (c.setSubst n x).locals = c.locals := rfl
 
 theorem CtxInv.setParam {p : SKProvider} {c : ECtx} (hi : CtxInv p c) (nm : String) (v : Value) (x : List Char)
-    (hqf : p.queryFunction = asmBuiltinKnown) (hnm : isAsmBuiltinName nm = false) :
+    (hqf : p.queryFunction = asmBuiltinKnown) :
     CtxInv (p.setLocal nm { valueKnown := true }) ((c.setLocal nm v).setSubst nm x) := by
-  refine ⟨fun n hn => ?_, fun n l hl hv => ?_⟩
+  refine ⟨fun n hn hloc => ?_, fun n l hl hv => ?_⟩
   · have hn' : asmBuiltinKnown n = true := by
       have : (p.setLocal nm { valueKnown := true }).queryFunction = p.queryFunction := rfl
       rw [this, hqf] at hn; exact hn
+    rw [SKProvider.local?_setLocal] at hloc
     have hne : nm ≠ n := by
-      intro e; subst e
-      have : isAsmBuiltinName nm = true := hn'
-      rw [hnm] at this; cases this
+      intro e; subst e; simp at hloc
+    simp only [hne, if_false] at hloc
     rw [ECtx.locals_setSubst]
     simp only [ECtx.setLocal]
     rw [Locals.get_set_ne _ _ _ _ hne]
-    exact hi.1 n (by rw [hqf]; exact hn')
+    exact hi.1 n (by rw [hqf]; exact hn') hloc
   · rw [ECtx.locals_setSubst]
     simp only [ECtx.setLocal]
     by_cases hne : nm = n
@@ -195,11 +186,6 @@ theorem CtxInv.setParam {p : SKProvider} {c : ECtx} (hi : CtxInv p c) (nm : Stri
 /-- the rule a match refers to -/
 abbrev ruleOf (defs : Defs) (rdi ri : Nat) : Rule := (defs.ruledefs.getD rdi default).rules.getD ri default
 
-/-- no rule parameter is named like a built-in inclusion function (decidable; `{incbin}` as a
-    parameter name would hide the function inside the production) -/
-def ParamsOK (defs : Defs) : Prop :=
-  ∀ rdi ri i, isAsmBuiltinName ((ruleOf defs rdi ri).params.getD i ("", .unspecified)).1 = false
-
 theorem ite_none_some {α} (c : Prop) [Decidable c] (x : Option α) (y : α) (h : (if c then none else x) = some y) :
     ¬ c ∧ x = some y := by
   by_cases hc : c
@@ -207,7 +193,7 @@ theorem ite_none_some {α} (c : Prop) [Decidable c] (x : Option α) (y : α) (h 
   · simp only [hc, if_false] at h; exact ⟨hc, h⟩
 
 theorem matchKnownArgs_pinv (d : Decls) (defsM : Defs) (symCtx : List String) (qv : Nat → List String → Bool)
-    (rdi ri : Nat) (hpar : ParamsOK defsM) :
+    (rdi ri : Nat) :
     ∀ (fk : Nat) (args : List IArg) (i : Nat) (pa p p' : SKProvider),
       matchKnownArgs d defsM symCtx fk (ruleOf defsM rdi ri) args i pa p = some p' → PInv p qv → PInv p' qv := by
   intro fk
@@ -219,10 +205,9 @@ theorem matchKnownArgs_pinv (d : Decls) (defsM : Defs) (symCtx : List String) (q
     | nil => simp only [matchKnownArgs] at h; injection h with h; rw [← h]; exact hp
     | cons a rest =>
       simp only [matchKnownArgs] at h
-      exact ih rest (i + 1) pa _ p' (ite_none_some _ _ _ h).2 (hp.setLocal _ _ (hpar rdi ri i))
+      exact ih rest (i + 1) pa _ p' (ite_none_some _ _ _ h).2 (hp.setLocal _ _)
 
-theorem resolve_static (st : Static) (defsM defs1 defs2 : Defs) (ctx1 ctx2 : RCtx) (rel : SRel defsM defs1 defs2 ctx1 ctx2)
-    (hpar : ParamsOK defsM) :
+theorem resolve_static (st : Static) (defsM defs1 defs2 : Defs) (ctx1 ctx2 : RCtx) (rel : SRel defsM defs1 defs2 ctx1 ctx2) :
     ∀ f : Nat,
       (∀ (fk : Nat) (m : IMatch) (argCtx : ECtx) (v : Value) (argCtx' : ECtx),
         matchKnown st.decls defsM ctx1.symCtx fk m = true → CtxInv (matchP0 st.decls defsM ctx1.symCtx) argCtx →
@@ -255,11 +240,11 @@ theorem resolve_static (st : Static) (defsM defs1 defs2 : Defs) (ctx1 ctx2 : RCt
         | some p' =>
           rw [hka] at hk
           simp only at hk
-          have pinv' := matchKnownArgs_pinv st.decls defsM ctx1.symCtx _ m.ruledef m.rule hpar fk m.args 0 _ _ p' hka pinv0
+          have pinv' := matchKnownArgs_pinv st.decls defsM ctx1.symCtx _ m.ruledef m.rule fk m.args 0 _ _ p' hka pinv0
           simp only [resolveMatch] at h ⊢
           rw [rel.rd1] at h; rw [rel.rd2]
           have hinvDeep : CtxInv (matchP0 st.decls defsM ctx1.symCtx) argCtx.deepened :=
-            ⟨fun n _ => rfl, fun n l hl _ => by cases hl⟩
+            ⟨fun n _ _ => rfl, fun n l hl _ => by cases hl⟩
           cases hra : resolveArgs st defs1 f ctx1 (ruleOf defsM m.ruledef m.rule) m.args 0 argCtx argCtx.deepened with
           | error e => rw [hra] at h; cases h
           | ok x =>
@@ -288,7 +273,6 @@ theorem resolve_static (st : Static) (defsM defs1 defs2 : Defs) (ctx1 ctx2 : RCt
                 obtain ⟨e3, _⟩ := eval_static_le p' pinv'.providerOK _ _ ag rc _ hk (i3 rc rfl) v1 c1 hev hne
                 rw [e3]; exact ⟨rfl, i2⟩
     · intro fk rdi ri args i argCtx ruleCtx p p' r argCtx' hka pinv hinv hrc h hne
-      have hnm := hpar rdi ri i
       have ag0 := agreeLe_of_rel st defsM defs1 defs2 ctx1 ctx2 rel f (matchP0 st.decls defsM ctx1.symCtx) rfl rfl
       cases args with
       | nil =>
@@ -341,8 +325,8 @@ theorem resolve_static (st : Static) (defsM defs1 defs2 : Defs) (ctx1 ctx2 : RCt
                       exact ⟨by first | rfl | trivial, i2, fun rc hh => by cases hh⟩
                     · have hcp' : cv.shouldPropagate = false := by simpa using hcp
                       simp only [hcp', Bool.false_eq_true, if_false] at h ⊢
-                      exact ihB fk rdi ri rest (i + 1) a1 _ _ p' r argCtx' hka2 (pinv.setLocal _ _ hnm) i2
-                        (hrc.setParam _ cv excerpt pinv.qf hnm) h hne
+                      exact ihB fk rdi ri rest (i + 1) a1 _ _ p' r argCtx' hka2 (pinv.setLocal _ _) i2
+                        (hrc.setParam _ cv excerpt pinv.qf) h hne
             | nested nm x1 x2 excerpt =>
               have hkn : matchKnown st.decls defsM ctx1.symCtx fk nm = true := by
                 cases pt <;> simp at hknown <;> exact hknown
@@ -363,8 +347,8 @@ theorem resolve_static (st : Static) (defsM defs1 defs2 : Defs) (ctx1 ctx2 : RCt
                   obtain ⟨e2, i2⟩ := ihA fk nm argCtx v a1 hkn hinv hrm (isUnk_of_not_propagate v hp')
                   rw [e2]
                   simp only [hp', Bool.false_eq_true, if_false] at h ⊢
-                  exact ihB fk rdi ri rest (i + 1) a1 _ _ p' r argCtx' hka2 (pinv.setLocal _ _ hnm) i2
-                    (hrc.setParam _ v excerpt pinv.qf hnm) h hne
+                  exact ihB fk rdi ri rest (i + 1) a1 _ _ p' r argCtx' hka2 (pinv.setLocal _ _) i2
+                    (hrc.setParam _ v excerpt pinv.qf) h hne
 
 /-! ## candidate lists and the chosen encoding -/
 
@@ -373,7 +357,7 @@ def Resolution.definite : Resolution → Bool
   | _ => true
 
 theorem resolveMatches_static (st : Static) (defsM defs1 defs2 : Defs) (ctx1 ctx2 : RCtx) (rel : SRel defsM defs1 defs2 ctx1 ctx2)
-    (hpar : ParamsOK defsM) (fk : Nat) :
+    (fk : Nat) :
     ∀ (f : Nat) (cands : List IMatch) (argCtx : ECtx) (acc rs : List Resolution) (argCtx' : ECtx),
       (∀ c ∈ cands, matchKnown st.decls defsM ctx1.symCtx fk c = true) →
       CtxInv (matchP0 st.decls defsM ctx1.symCtx) argCtx →
@@ -424,7 +408,7 @@ theorem resolveMatches_static (st : Static) (defsM defs1 defs2 : Defs) (ctx1 ctx
             cases v <;> first
               | rfl
               | (simp only at hr; injection hr with hr; rw [← hr] at hrdef; cases hrdef)
-          obtain ⟨e2, i2⟩ := (resolve_static st defsM defs1 defs2 ctx1 ctx2 rel hpar f).1 fk m argCtx v a1
+          obtain ⟨e2, i2⟩ := (resolve_static st defsM defs1 defs2 ctx1 ctx2 rel f).1 fk m argCtx v a1
             (hk m (List.mem_cons_self ..)) hinv hrm hv
           rw [e2]
           simp only [hr]
@@ -433,7 +417,7 @@ theorem resolveMatches_static (st : Static) (defsM defs1 defs2 : Defs) (ctx1 ctx
 /-- **the frozen choice is the choice**: if every candidate is statically known and none is
     unresolved, the list of candidates resolves in the later state to the same resolutions -/
 theorem allDefinite_static (st : Static) (defsM defs1 defs2 : Defs) (ctx1 ctx2 : RCtx) (rel : SRel defsM defs1 defs2 ctx1 ctx2)
-    (hpar : ParamsOK defsM) (fk : Nat) (cands : List IMatch)
+    (fk : Nat) (cands : List IMatch)
     (hk : ∀ c ∈ cands, matchKnown st.decls defsM ctx1.symCtx fk c = true)
     (hd : allDefinite st defs1 ctx1 cands = true) :
     ∃ rs a, resolveMatches st defs1 (evalFuel - 1) ctx1 cands {} [] = .ok (rs, a) ∧
@@ -451,8 +435,8 @@ theorem allDefinite_static (st : Static) (defsM defs1 defs2 : Defs) (ctx1 ctx2 :
       have := hd r hr
       cases r <;> first | rfl | cases this
     refine ⟨rs, a, rfl, ?_, hdef⟩
-    exact resolveMatches_static st defsM defs1 defs2 ctx1 ctx2 rel hpar fk _ cands {} [] rs a hk
-      ⟨fun n _ => rfl, fun n l hl _ => by cases hl⟩ h1 hdef
+    exact resolveMatches_static st defsM defs1 defs2 ctx1 ctx2 rel fk _ cands {} [] rs a hk
+      ⟨fun n _ _ => rfl, fun n l hl _ => by cases hl⟩ h1 hdef
 
 theorem chooseEncoding_single (g g' : Bool) (rs : List Resolution) (encs : List (Nat × BI)) (rep : List String)
     (h : chooseEncoding g rs = (some encs, rep)) (hs : encs.length = 1) : chooseEncoding g' rs = (some encs, []) := by
@@ -476,13 +460,13 @@ theorem chooseEncoding_single (g g' : Bool) (rs : List Resolution) (encs : List 
     the candidates in any later related state — at another address, guessing allowed or not —
     chooses the same encoding -/
 theorem frozen_instruction_sound (st : Static) (defsM defs1 defs2 : Defs) (ctx1 ctx2 : RCtx) (rel : SRel defsM defs1 defs2 ctx1 ctx2)
-    (hpar : ParamsOK defsM) (fk : Nat) (cands : List IMatch)
+    (fk : Nat) (cands : List IMatch)
     (hk : ∀ c ∈ cands, matchKnown st.decls defsM ctx1.symCtx fk c = true)
     (hd : allDefinite st defs1 ctx1 cands = true)
     (encs : List (Nat × BI)) (rep : List String)
     (h1 : resolveEncoding st defs1 evalFuel ctx1 cands {} = .ok (some encs, rep)) (hs : encs.length = 1) :
     resolveEncoding st defs2 evalFuel ctx2 cands {} = .ok (some encs, []) := by
-  obtain ⟨rs, a, e1, e2, _⟩ := allDefinite_static st defsM defs1 defs2 ctx1 ctx2 rel hpar fk cands hk hd
+  obtain ⟨rs, a, e1, e2, _⟩ := allDefinite_static st defsM defs1 defs2 ctx1 ctx2 rel fk cands hk hd
   rw [evalFuel_succ'] at h1 ⊢
   simp only [resolveEncoding, e1, e2] at h1 ⊢
   injection h1 with h1
@@ -501,8 +485,8 @@ theorem pure_static_eval (st : Static) (defs1 defs2 : Defs) (ctx1 ctx2 : RCtx) (
     intro n hq _
     exact ⟨n, by rw [mkEnv_var]; exact evalVariable_asmBuiltin st defs1 ctx1 n hq,
       by rw [mkEnv_var]; exact evalVariable_asmBuiltin st defs2 ctx2 n hq⟩
-  have hp : ProviderOK pureP := fun n _ => ⟨rfl, rfl⟩
-  have hc : CtxInv pureP {} := ⟨fun n _ => rfl, fun n l hl _ => by cases hl⟩
+  have hp : ProviderOK pureP := fun n _ => rfl
+  have hc : CtxInv pureP {} := ⟨fun n _ _ => rfl, fun n l hl _ => by cases hl⟩
   exact (eval_static pureP hp _ _ ag {} e hk hc).1
 
 end Casm
